@@ -24,6 +24,7 @@
 -/
 import UnytModel.Tables
 import UnytModel.Generated.ParseVocab
+import UnytModel.Generated.ParseNames
 
 namespace Unyt
 namespace Parse
@@ -56,8 +57,8 @@ def pyStrip (cs : List Char) : List Char :=
 /-- `unit_expr.replace("%", "percent").replace("°", "deg")` — the replacements are the
     regenerated `Generated.parseRewrites`, applied one after the other -/
 def rewrite (cs : List Char) : List Char :=
-  Generated.parseRewrites.foldl
-    (fun acc (p : Char × String) => acc.flatMap fun c => if c = p.1 then p.2.toList else [c]) cs
+  Generated.parseRewriteCodes.foldl
+    (fun acc (p : Nat × List Nat) => acc.flatMap fun c => if c.toNat = p.1 then p.2.map Char.ofNat else [c]) cs
 
 def isDigit (c : Char) : Bool := 48 ≤ c.toNat && c.toNat ≤ 57
 
@@ -84,7 +85,7 @@ def binVal (c : Char) : Option Nat := if c = '0' then some 0 else if c = '1' the
 inductive Tok
   /-- a NUMBER literal `m × 10^e`; its value is computed only when the code is evaluated
       (a syntax error elsewhere in the string is reported before `Rational('1e999999999')` is tried) -/
-  | num (m : Nat) (e : Int) | name (s : String) | star | dstar | slash | lpar | rpar | minus | plus
+  | num (m : Nat) (e : Int) | name (s : List Char) | star | dstar | slash | lpar | rpar | minus | plus
 deriving DecidableEq, Repr, Inhabited
 
 /-- Python's `digitpart`: `digit (["_"] digit)*`, the first character already known to be a
@@ -246,7 +247,7 @@ def lex : Nat → Nat → List Char → Except PErr (List Tok)
         else (lex fuel depth rest).map (Tok.num m e :: ·)
     else if isIdStart c then
       let (nm, rest) := takeName cs [c]
-      (lex fuel depth rest).map (Tok.name (String.ofList nm) :: ·)
+      (lex fuel depth rest).map (Tok.name nm :: ·)
     else .error .unitParseError
 
 /-- `untokenize` glues neighbouring operator tokens back together, so `* *` is read as `**`
@@ -282,7 +283,7 @@ def tokenize (cs : List Char) : Except PErr (List Tok) :=
 -/
 
 inductive PExpr
-  | num (m : Nat) (e : Int) | name (s : String)
+  | num (m : Nat) (e : Int) | name (s : List Char)
   | neg (e : PExpr) | pos (e : PExpr)
   | mul (a b : PExpr) | div (a b : PExpr) | pow (a b : PExpr)
   | call (f arg : PExpr)
@@ -426,8 +427,8 @@ def unm {α} : Except PErr α := .error .unmodelled
 
 /-- the NAME tokens `_auto_positive_symbol` leaves alone (`name in global_dict`, callable):
     the regenerated key set of `global_dict` -/
-def globalTypes : List String := Generated.parseGlobalTypes
-def globalFns : List String := Generated.parseGlobalFns
+def globalTypes : List (List Nat) := Generated.parseGlobalTypeCodes
+def globalFns : List (List Nat) := Generated.parseGlobalFnCodes
 
 def vMul (a b : Val) : Except PErr Val :=
   match a, b with
@@ -510,12 +511,19 @@ def vCall (f a : Val) : Except PErr Val :=
   | .ty, _ => upe                                    -- `Integer(2)`: accepted by the code, outside the vocabulary
   | _, _ => upe                                      -- "object is not callable"
 
+/-- `inv_name_alternatives.get(name, name)` through the regenerated search tree
+    (`Generated.nameTree`; it answers every key of the shared table like the shared `canonName`,
+    theorem `name_tree_matches_table`) -/
+def canonTree (cs : List Char) : String :=
+  (Generated.nameTree.find? (cs.map Char.toNat)).getD (String.ofList cs)
+
 /-- NAME → value: `sqrt` and the four classes of `global_dict` stay Python names, everything
     else becomes `Symbol(inv_name_alternatives.get(name, name), positive=True)` -/
-def vName (s : String) : Val :=
-  if globalFns.contains s then .fn
-  else if globalTypes.contains s then .ty
-  else .mono ⟨1, [(canonName s, 1)]⟩
+def vName (cs : List Char) : Val :=
+  let codes := cs.map Char.toNat
+  if globalFns.contains codes then .fn
+  else if globalTypes.contains codes then .ty
+  else .mono ⟨1, [(canonTree cs, 1)]⟩
 
 def evalP : PExpr → Except PErr Val
   | .num m e => do let q ← numValue m e; .ok (.mono ⟨q, []⟩)
@@ -574,7 +582,7 @@ def finish : Val → Except PErr (UExpr Rat)
 
 /-- `Unit(s)` for a `str` -/
 def parseChars (cs : List Char) : Except PErr (UExpr Rat) :=
-  let cs := if cs.isEmpty then Generated.parseEmpty.toList else cs   -- `if not unit_expr: unit_expr = "1"`
+  let cs := if cs.isEmpty then Generated.parseEmptyCodes.map Char.ofNat else cs   -- `if not unit_expr: unit_expr = "1"`
   match tokenize (rewrite cs) with
   | .error e => .error e
   | .ok ts =>
@@ -589,7 +597,7 @@ def parseUnit (s : String) : Except PErr (UExpr Rat) := parseChars s.toList
 
 /-- the syntax tree a string is read as (for stating guards) -/
 def syntaxOf (s : String) : Option PExpr :=
-  let cs := if s.toList.isEmpty then Generated.parseEmpty.toList else s.toList
+  let cs := if s.toList.isEmpty then Generated.parseEmptyCodes.map Char.ofNat else s.toList
   match tokenize (rewrite cs) with
   | .error _ => none
   | .ok ts => parseTokens ts
